@@ -148,6 +148,21 @@ def evaluate(c):
         if z.max() > -100:
             chk('ZENITH', float(z.max() - z.min()), 1e-6, 'total gain at the zenith depends on azimuth')
         canon.append('%s|%s|%s' % (name, pwr, dist))
+    # 6. a second table on the same object that differs from the first request in the azimuth start only
+    # (and then in the zenith start only): three of its rows against the radiation sum
+    for zen2, azi2, what in ((zen, (azi[0] + 90., azi[1], azi[2]), 'azimuth'), ((zen[0] + 7., zen[1], zen[2] - 1), azi, 'zenith')):
+        et, ep, gain = obs.far(m, zen2, azi2)
+        ntr += 1
+        et, ep = np.array(et), np.array(ep)
+        if et.shape != (azi2[2], zen2[2]):
+            et, ep = et.T, ep.T
+        dv = 0.0
+        for j in (0, 4, 9):
+            for i in range(zen2[2]):
+                rf = ffref.field(m, math.radians(zen2[0] + i * zen2[1]), math.radians(azi2[0] + j * azi2[1]), True)
+                dv = max(dv, abs(et[j, i] - rf[0]), abs(ep[j, i] - rf[1]))
+        chk('FF-SUM-2nd-' + what, dv / max(np.abs(ref_m).max(), 1e-300), 1e-4, 'second request (%s start changed) differs from the pulse-point radiation sum' % what)
+        canon.append('%s|2nd-%s' % (name, what))
     special = ground or 'wires' in c or geom.junction_degree(case) >= 2
     return dict(viol=viol[:8], canon=canon, nontriv=bool(special), trans=ntr + len(ths) * len(phs), traces=len(ths) * len(phs) * (2 if do_exact else 1),
                 evals=ntr, dev=worst, outcome='%s,exact=%s' % (c['env'], bool(do_exact)), note=dict(worst=wn, name=name))
